@@ -49,6 +49,7 @@ def the_tree(variant=0):
         'ro': F(2, mode=0o444), 'none': F(2, mode=0), 'wx': F(2, mode=0o233), 'Name.TXT': F(12),
         'sub': D({'size': F(10), 'deep.txt': F(7)}), 'emptyd': D({}, mode=0o700), 'lnk': L('sub'), 'pipe': {'t': 'p'},
         'bs\\': F(16), 'mid\\dle': F(17), 'dq"x': F(18),
+        'g': D({'???': F(3)}), 'AB': D({'*': F(1), '????': F(2)}), 'q.?': F(4),
         'lc': D({'big70k': F(data='line..\n' * 10000), 'big200k': F(data='x\n' * 100001 + 'tail'), 'l0': F(data=''), 'l1': F(data=lines(1)), 'l2': F(data=lines(2)), 'l10': F(data=lines(10)),
                  'nl': F(data='a\nb'), 'l3.txt': F(data=lines(3))}),
     }
@@ -148,7 +149,9 @@ def gen_cases(col, kind, ents, tier):
                     continue   # an unquoted word that spells a column/function is not a literal
                 for op in ('eq', 'ne', 'eeq', 'ene'):
                     for sp in OPSETS[op]:
-                        if op in ('eq', 'eeq'):
+                        if op in ('eq', 'ne') and mt.has_glob(v):      # a value that contains * or ? is a pattern to `=` and `!=`
+                            pred = (lambda e, v=v, neg=(op == 'ne'): mt.glob_match(v, e[col]) != neg)
+                        elif op in ('eq', 'eeq'):
                             pred = (lambda e, v=v: e[col] == v)
                         else:
                             pred = (lambda e, v=v: e[col] != v)
@@ -208,6 +211,26 @@ def gen_cases(col, kind, ents, tier):
                     yield ("%s %s '%s'" % (col, op, lit), (lambda e, f=f, a=a, b=b: f(e[col], a, b)), 'date-interval')
         for a, b in zip(lits, lits[3:]):
             yield ("%s between '%s' and '%s'" % (col, fmt_date(a), fmt_date(b)), (lambda e, a=a, b=b: a <= e[col] <= b), 'date-between')
+    elif kind == 'extra':
+        # literals that are numbers but no small whole numbers, against integer columns
+        for lit, v in (('1.5', 1.5), ('1.0', 1.0), ('0.5', 0.5), ('10.25', 10.25), ('999.999', 999.999), ('9223372036854775808', 2.0 ** 63),
+                       ('18446744073709551615', 2.0 ** 64), ('99999999999999999999', 1e20), ('9000000t', 9e6 * 1024 ** 4), ('0.1m', 104857.6),
+                       ('2.01kb', 2010.0), ('1.001mb', 1001000.0), ('0.0005k', 0.512)):
+            for col in ('size', 'hardlinks', 'length(name)'):
+                for op in ('eq', 'ne', 'gt', 'ge', 'lt', 'le'):
+                    yield ('%s %s %s' % (col, OPSETS[op][0], lit), (lambda e, col=col, op=op, v=v: num_cmp(op, e[col], v)), 'num-literal-shape')
+        yield ('size between 0.5 and 1.5', (lambda e: 0.5 <= e['size'] <= 1.5), 'num-literal-shape')
+        yield ('size between 2.01kb and 0.1m', (lambda e: 2010 <= e['size'] <= 104857.6), 'num-literal-shape')
+        # the empty text
+        for col in ('ext', 'name'):
+            for sp, f in (('=', lambda a: a == ''), ('!=', lambda a: a != ''), ('===', lambda a: a == ''), ('!==', lambda a: a != ''),
+                          ('like', lambda a: a == ''), ('notlike', lambda a: a != '')):
+                for qq in ("''", '""'):
+                    yield ('%s %s %s' % (col, sp, qq), (lambda e, col=col, f=f: f(e[col])), 'empty-literal')
+        # two text columns: the attributes themselves are compared, whatever characters they contain
+        for a, b in (('name', 'ext'), ('dir', 'name'), ('name', 'dir'), ('path', 'name'), ('ext', 'name')):
+            yield ('%s = %s' % (a, b), (lambda e, a=a, b=b: e[a] == e[b]), 'col-col-text')
+            yield ('%s != %s' % (a, b), (lambda e, a=a, b=b: e[a] != e[b]), 'col-col-text')
     elif kind == 'colcol':
         pairs = [('size', 'hardlinks'), ('uid', 'gid'), ('size', 'length(name)'), ('hardlinks', 'length(name)'), ('gid', 'size')]
         for a, b in pairs:
@@ -229,6 +252,7 @@ def colspecs():
     yield 'modified', 'date'
     yield '*', 'colcol'
     yield '*', 'longpath'
+    yield '*', 'extra'
     yield 'America/Havana', 'date2'
     yield 'Atlantic/Azores', 'date2'
     yield 'UTC', 'date2'
